@@ -4,10 +4,10 @@
   `Region.get_unique_protoclusters`.
 
   One Lean function per Python function, same branch order.  The code modelled is the tree
-  *with* the three repairs of fixes/D24, D25, D26 applied:
+  *with* the three repairs of fixes/D24, D30, D31 applied:
     D24  `Row.can_fit`: an origin-spanning area is tested against every area of the row
-    D25  `adjust_cross_origin_area`: only protoclusters take the core branches
-    D26  `adjust_cross_origin_area`: the side of the core is `core_start >= feature.start`
+    D30  `adjust_cross_origin_area`: only protoclusters take the core branches
+    D31  `adjust_cross_origin_area`: the side of the core is `core_start >= feature.start`
   Mutation through `self`/closures becomes returned values; `ValueError`/`assert` become `none`.
   Strings irrelevant to the layout (prefix, category, tool) are not modelled.
   No imports outside ASV.Model (driver-linkable).
